@@ -1,19 +1,21 @@
 #!/usr/bin/env python3
 """Replay every triaged stored change (seeded/*) against the checks named in its meta.json (and, for property-preserving
-changes, against all twenty checks); print what is not judged as recorded."""
+changes, against all twenty checks); print what is not judged as recorded.  `--all`: every stored change against all
+twenty checks (what the thorough tiers do together): a property-breaking change must also leave the checks of the
+properties it does not touch silent, unless listed as tolerated."""
 import sys, json, concurrent.futures as cf
 sys.path.insert(0, '/verif')
 from dznverif import selftest as st
 ALL = [f'C{n:02d}' for n in range(1, 21)]
 ms = st.load_seeded()
 def job(m):
-    if m.get('benign'):
+    if m.get('benign') or '--all' in sys.argv:
         props = ALL
     else:
         props = sorted({w['property'] for w in (m.get('caught_by') or [])} | {m['property']})
     return st.run_seeded('/repo', m, props)
 bad = 0
-with cf.ThreadPoolExecutor(6) as ex:
+with cf.ThreadPoolExecutor(8) as ex:
     for m, res in zip(ms, ex.map(job, ms)):
         for r in res:
             if r[2] != 'ok':
